@@ -27,7 +27,10 @@ class Case:
 def _run_shard(args):
     binp, backend, seed, text, mode = args
     pr = subprocess.Popen([binp, mode, backend], stdin=subprocess.PIPE, stdout=subprocess.PIPE, stderr=subprocess.PIPE, text=True,
-                          env=dict(ENV, VERIF_SEED=str(seed), TSS_SERVER_BIN=os.environ.get("TSS_SERVER_BIN", "")))
+                          env=dict(ENV, VERIF_SEED=str(seed), TSS_SERVER_BIN=os.environ.get("TSS_SERVER_BIN", ""),
+                                   # the in-memory runs are made the way an operator debugging the server would run it: every
+                                   # log statement of the code under test is formatted (and thrown away)
+                                   **({"TSS_LOG": "trace"} if backend == "inmem" else {})))
     try:
         so, se = pr.communicate(text, timeout=int(os.environ.get("TSS_SHARD_TIMEOUT", "300")))
         if pr.returncode != 0:
